@@ -69,6 +69,8 @@ def generate(rng: random.Random, tier: str, seed: int) -> dict:
           "mode": rng.choice(["file", "dir"]), "detail": rng.choice(harness.DETAILS), "launch_opt": opt,
           "attempt": rng.choice([1, 1, 2, 3]), "fail_at": rng.choice([None, None, 0, 1, 2, 3]),
           "fail_node": rng.randrange(len(base["nodes"])), "mut_seed": rng.getrandbits(32)}
+    # an explicit launch id is the caller's text, recorded as given (also when it is not a tidy identifier)
+    sc["explicit_id"] = rng.choice(["launch-explicit-001", "launch-explicit-001", "nightly:2026-10-05 #3", "r\u00e9gression (retry) [b]=7"])
     sc["in_place_mutation"] = in_place
     sc["rs_file"] = rng.random() < 0.2
     sc["subdir"] = rng.random() < 0.35          # the YAML (and its source files) live in cfg/, the CLI runs from the parent directory
@@ -120,7 +122,7 @@ def _launch(sc: dict, w, name: str, run_space: dict, *, opt: str, idem: str = "k
             f.write(yaml.safe_dump({"run_space": run_space}, sort_keys=False))
         argv += ["--run-space-file", f"{pfx}{name}_rs.yaml"]
     if opt == "explicit":
-        argv += ["--run-space-launch-id", "launch-explicit-001"]
+        argv += ["--run-space-launch-id", sc.get("explicit_id") or "launch-explicit-001"]
     elif opt == "idem":
         argv += ["--run-space-idempotency-key", idem]
     plan = _plan(sc, f"{pfx}{name}.yaml") if not (sc.get("rs_file") and name == "launch_rsfile") else _plan(sc, f"{pfx}plan.yaml")
@@ -379,6 +381,11 @@ def execute(sc: dict, seed: int) -> dict:
             viols.append(oracles.V("plan_order", f"executed_contexts:{fk}", f"{where}; executed {seen_ctx} planned prefix {want_ctx}"))
         # "every pipeline_start carries the launch id, attempt, its 0-based index and its context"
         launch_id = rs_start[0].get("run_space_launch_id") if rs_start else None
+        if sc["launch_opt"] == "explicit" and rs_start:
+            want_id = sc.get("explicit_id") or "launch-explicit-001"
+            for r in rs_start + rs_end:
+                if r.get("run_space_launch_id") != want_id:
+                    viols.append(oracles.V("launch_id", "explicit_id_not_recorded_as_given", f"{where}; --run-space-launch-id {want_id!r}, {r.get('record_type')} has {r.get('run_space_launch_id')!r}"))
         for i, st in enumerate(starts):
             exp_ctx = want_ctx[i] if i < len(want_ctx) else None
             if st.get("run_space_launch_id") != launch_id or launch_id is None:
@@ -391,7 +398,7 @@ def execute(sc: dict, seed: int) -> dict:
                 viols.append(oracles.V("fk", "context", f"{where}; pipeline_start {i} run_space_context={st.get('run_space_context')} planned {exp_ctx}"))
         if rs_start and rs_start[0].get("run_space_attempt") != sc["attempt"]:
             viols.append(oracles.V("fk", "attempt_in_start", f"{where}; {rs_start[0].get('run_space_attempt')}"))
-        if sc["launch_opt"] == "explicit" and launch_id != "launch-explicit-001":
+        if sc["launch_opt"] == "explicit" and launch_id != (sc.get("explicit_id") or "launch-explicit-001"):
             viols.append(oracles.V("launch_id", "explicit_not_used", f"{where}; launch id {launch_id}"))
         # exit code
         if (code == 0) != (fail_at is None):
@@ -449,6 +456,11 @@ def execute(sc: dict, seed: int) -> dict:
         s2 = next((r for r in L2["records"] if r.get("record_type") == "run_space_start"), {})
         if spec_id is not None and s2.get("run_space_spec_id") != spec_id:
             viols.append(oracles.V("spec_id", "changes_under_cosmetic_rewrite", f"{where}; {spec_id} vs {s2.get('run_space_spec_id')}"))
+        # ... and the same spec id means the same plan: the rewritten file performs the same runs in the same order
+        got2 = [_canon(ri["context"]) for ri in L2["run_inputs"]]
+        if got2 != [_canon(_logged(dict(ctx0, **plan[i]))) for i in range(n)]:
+            viols.append(oracles.V("plan_order", "changes_under_cosmetic_rewrite", f"{where}; mapping keys of the run_space block permuted: executed "
+                                   f"{[ri['context'] for ri in L2['run_inputs']][:4]} vs planned {[dict(ctx0, **plan[i]) for i in range(min(n, 4))]}"))
         if sc["launch_opt"] == "idem":
             stats["probe.idempotency_key"] = 1
             if s2.get("run_space_launch_id") != launch_id:
